@@ -146,7 +146,7 @@ def _c12(ctx, b, q):
         _mc(ctx, 'Exec_C12_MC.cfg', workers=4, timeout=3600)
     else:
         res = _mc(ctx, 'Exec_C12_MCt.cfg', workers=6, timeout=14400, coverage=True)
-        _coverage_ok(ctx, res, allow=('Run', 'Activity', 'TxRead("L"', 'TxList', 'TxFail', 'TxLocalFail'))
+        _coverage_ok(ctx, res, allow=('Run', 'Activity', 'TxRead("L"', 'TxList', 'TxFail', 'TxLocalFail', 'TxNext'))
     rows, oks = 0, 0
     first = None
     for cfg, para in (('Exec_C12_AllS.cfg', 0), ('Exec_C12_AllSp.cfg', 1), ('Exec_C12_AllL.cfg', 0), ('Exec_C12_AllLp.cfg', 1)):
